@@ -102,6 +102,7 @@ func (e *Engine) resolveAlias(st *State, s *Term) *Term {
 var discardRef = BVConst(freshRefBase-1, 64)
 
 func (e *Engine) writeTok(st *State, s *Term, t tokVal) {
+	direct := s
 	s = e.resolveAlias(st, s)
 	if s == discardRef {
 		return
@@ -111,6 +112,11 @@ func (e *Engine) writeTok(st *State, s *Term, t tokVal) {
 			e.writeTok(st, sink, t)
 		}
 		return
+	}
+	// a token that was written directly (not through a buffering wrapper, whose writes succeed whatever the state of
+	// the stream underneath) went to a stream that is not broken (see the contract builtin broken(w))
+	if direct == s {
+		st.assume(Not(App("uf!broken", BoolSort, s)))
 	}
 	w := wposOf(st, s)
 	e.tokStore(st, s, w, t)
@@ -619,6 +625,10 @@ func modelWrite(e *Engine, st *State, fr *Frame, fn *ssa.Function, args []Val, i
 	s := streamRef(args[0])
 	n := p.sLen()
 	key := arrRoot(types.Typ[types.Uint8]) + "|[]"
+	// a Write that succeeds was not on a broken stream (see the contract builtin broken(w))
+	if e.resolveAlias(st, s) == s {
+		st.assume(Not(App("uf!broken", BoolSort, s)))
+	}
 	if e.byteMode() {
 		// byte-level writer: the bytes of p are appended at the end mark of the stream
 		rs := e.resolveAlias(st, s)
